@@ -104,6 +104,20 @@ func errStr(err error) string {
 	return "ERR " + err.Error()
 }
 
+// c13SharedBuilder is renewed before every execution (and before every sequential reference call).
+var c13SharedBuilder = graph.NewWeightedAuthorizationModelGraphBuilder()
+
+// c13BuilderModelB shares type names with the graph model but differs in which relations the types have and in what its
+// tuple-to-usersets resolve against (a builder that indexes types or relations across calls mixes the two up).
+var c13BuilderModelB = ref.ToProto(&ref.Model{Schema: "1.1", Types: []ref.TypeDef{
+	{Name: "user"},
+	{Name: "folder", Rels: []ref.Relation{{Name: "viewer", Rw: ref.T(), Restr: []ref.Restriction{{Type: "user"}}}, {Name: "owner", Rw: ref.T(), Restr: []ref.Restriction{{Type: "user"}}}}},
+	{Name: "doc", Rels: []ref.Relation{
+		{Name: "parent", Rw: ref.T(), Restr: []ref.Restriction{{Type: "folder"}}},
+		{Name: "viewer", Rw: ref.U(ref.T(), ref.TT("owner", "parent"), ref.TT("viewer", "parent")), Restr: []ref.Restriction{{Type: "user"}, {Type: "user", Wildcard: true}}},
+	}},
+}})
+
 // c13Ops builds the call alphabet over the given shared inputs.
 func c13Ops(shared, graphM *openfgav1.AuthorizationModel) []c13Op {
 	c13Failing(shared) // built before any thread runs
@@ -168,6 +182,18 @@ func c13Ops(shared, graphM *openfgav1.AuthorizationModel) []c13Op {
 		}},
 		{"weighted-graph-shared", func() string {
 			o := wgBuild(graphM)
+			render := func() string { return wgObsString(o) }
+			return c13Keep(render(), render)
+		}},
+		// one builder VALUE shared by the calls of an execution (a service keeping a package-level builder): the builder carries no
+		// state of its own, so concurrent Build calls on it must behave like calls on fresh builders
+		{"weighted-graph-on-shared-builder-A", func() string {
+			o := wgBuildOn(c13SharedBuilder, graphM)
+			render := func() string { return wgObsString(o) }
+			return c13Keep(render(), render)
+		}},
+		{"weighted-graph-on-shared-builder-B", func() string {
+			o := wgBuildOn(c13SharedBuilder, c13BuilderModelB)
 			render := func() string { return wgObsString(o) }
 			return c13Keep(render(), render)
 		}},
@@ -539,6 +565,7 @@ func c13Interleave(ctx *core.Ctx, names []string, bound int, replay []int, share
 	want := make([]string, len(ops))
 	for i, o := range ops {
 		resetParserCaches()
+		c13SharedBuilder = graph.NewWeightedAuthorizationModelGraphBuilder()
 		want[i] = o.F()
 	}
 	sharedBefore, graphBefore := snapshotModel(shared), snapshotModel(graphM)
@@ -546,6 +573,7 @@ func c13Interleave(ctx *core.Ctx, names []string, bound int, replay []int, share
 	var res rt.SchedResult
 	body := func() {
 		resetParserCaches()
+		c13SharedBuilder = graph.NewWeightedAuthorizationModelGraphBuilder()
 		fns := make([]func(), len(ops))
 		for i := range ops {
 			i := i
@@ -637,9 +665,10 @@ func c13Interleavings(ctx *core.Ctx) {
 	hubs := map[string]bool{"parse-doc0": true, "print-shared-modular": true, "weighted-graph-shared": true}
 	for i := 0; i < len(names); i++ {
 		for j := i; j < len(names); j++ {
-			// quick: every call with itself and with three hub calls (a parse, the shared-model printer, a graph builder);
-			// thorough: every pair
-			if !ctx.Thorough() && i != j && !hubs[names[i]] && !hubs[names[j]] {
+			// quick: every call with itself and with three hub calls (a parse, the shared-model printer, a graph builder), and the
+			// two calls on the shared builder value with one another; thorough: every pair
+			bothOnBuilder := strings.Contains(names[i], "on-shared-builder") && strings.Contains(names[j], "on-shared-builder")
+			if !ctx.Thorough() && i != j && !hubs[names[i]] && !hubs[names[j]] && !bothOnBuilder {
 				continue
 			}
 			k++
